@@ -51,7 +51,7 @@ def check(ctx):
     ctx.assumptions += ASSUMPTIONS + enginecore.ASSUMPTIONS
     ctx.build("c10", "engine")
     ctx.tlc_mc("Audit", "MC_Audit.cfg" if ctx.quick else "MC_Audit_thorough.cfg", timeout=1200)
-    info = run_audit(ctx, ctx.seed, 54 if ctx.quick else 540, 40 if ctx.quick else 70, "audit")
+    info = run_audit(ctx, ctx.seed, 72 if ctx.quick else 720, 40 if ctx.quick else 70, "audit")
     ctx.sample({"kind": "recorded audit/replica run (harness c10 record)", "summary": info})
     # sequence numbering of process_with_audit on the EngineCore traces (tag tick_seq only)
     p_b, scn_b = ctx.tlc_gen("Gen_EngineCore", "Gen_EngineCore.cfg", "behaviours.ndjson", simulate=(300 if ctx.quick else 3000, 40), timeout=900)
@@ -70,5 +70,5 @@ def replay(ctx, rp):
     if "scenario" in rp:
         return enginecore.replay(ctx, rp)
     ctx.build("c10")
-    run_audit(ctx, rp.get("seed", ctx.seed), 54, 40, "replay")
+    run_audit(ctx, rp.get("seed", ctx.seed), 72, 40, "replay")
     return ctx.finish(write_evidence=False)
